@@ -56,10 +56,23 @@ def replay_scenarios(ck, binary, name, scenarios, threads, label):
     return summary
 
 
+def design_level(ck, thorough):
+    """spec/math/Chunking.tla: every interleaving of the batches of fft::concurrent::permute (which
+    swap cells outside their own index range) and of the offset-restarting shift batches; race
+    freedom and equality with the sequential result."""
+    cfg = "MCChunking_fft_thorough.cfg" if thorough else "MCChunking_fft.cfg"
+    r = vf.tlc("Chunking.tla", cfg, cwd=SPECDIR, workers=4, timeout=1800 if thorough else 300)
+    ck.add_tlc("design:chunking", r)
+    if not r.ok:
+        raise vf.ToolError("design-level chunking model %s failed its own invariant (specification bug): %s" % (cfg, r.error))
+    ck.require(r.distinct > 20000, "chunking model explored too few states: %d" % r.distinct)
+
+
 def run(ck, tier):
     thorough = tier == "thorough"
     serial = vf.build_harness("math")
     conc = vf.build_harness("math", variant="concurrent")
+    design_level(ck, thorough)
     cfg = "GenFFT_thorough.cfg" if thorough else "GenFFT.cfg"
     r = vf.tlc("FFT.tla", cfg, cwd=SPECDIR, workers=4, timeout=3000 if thorough else 600,
                env={"SEED": ck.seed % 40009})
@@ -88,7 +101,12 @@ def run(ck, tier):
     ck.require(s1["concurrent"] is False, "the serial binary was built with the concurrent feature")
     s2 = replay_scenarios(ck, conc, "concurrent", sc, THREADS, "concurrent")
     ck.require(s2["concurrent"] is True and s2["runs"] == len(THREADS), "the concurrent binary did not run all pools")
-    ck.bounds = {"small": "n in 2..32, N = n*blowup <= 32 (F_97) / <= 256 (F_257), cfg " + cfg,
+    if thorough:
+        # debug assertions and overflow checks on (the configuration `cargo test` uses)
+        replay_scenarios(ck, vf.build_harness("math", profile="dev"), "serial-dev", sc, [], "serial-dev")
+        replay_scenarios(ck, vf.build_harness("math", variant="concurrent", profile="dev"), "concurrent-dev", sc, [2, 8], "concurrent-dev")
+    ck.bounds = {"design": "Chunking.tla: all interleavings of permute / shift batches, n <= 20 (40 thorough), threads 1..16",
+                 "small": "n in 2..32, N = n*blowup <= 32 (F_97) / <= 256 (F_257), cfg " + cfg,
                  "big": "n in 64..8192 over F_40961, N <= 8192", "threads": THREADS}
     ck.exhaustive = False
     ck.assumptions = ["toy field types implement FieldP.tla's arithmetic and get_root_of_unity returns RootOfUnity(P, k) (a wrong root shows up as a mismatch)",
@@ -99,9 +117,11 @@ def run(ck, tier):
 def replay(ck, path):
     obj = json.load(open(path))
     rp = obj["replay"]
-    if rp.get("build") == "concurrent":
-        binary = vf.build_harness("math", variant="concurrent")
-        replay_scenarios(ck, binary, "replay", [rp["scenario"]], [rp.get("threads") or 4], "concurrent")
+    build = rp.get("build", "serial")
+    profile = "dev" if build.endswith("-dev") else "release"
+    if build.startswith("concurrent"):
+        binary = vf.build_harness("math", variant="concurrent", profile=profile)
+        replay_scenarios(ck, binary, "replay", [rp["scenario"]], [rp.get("threads") or 4], build)
     else:
-        binary = vf.build_harness("math")
-        replay_scenarios(ck, binary, "replay", [rp["scenario"]], [], "serial")
+        binary = vf.build_harness("math", profile=profile)
+        replay_scenarios(ck, binary, "replay", [rp["scenario"]], [], build)
